@@ -144,6 +144,20 @@ Fixpoint pop_while_not_fuel (fuel : nat) (names : list string) (s : ps) : ps :=
            end
   end.
 Definition pop_while_not (names : list string) (s : ps) : ps := pop_while_not_fuel (S (length (opn s))) names s.
+(* the same, stopping only at elements in the HTML namespace (clear the stack back to a table ... context) *)
+Definition hname_html (s : ps) (x : nat) : str :=
+  if negb (opt_str_eqb (ens (d s) x) (htmlns s)) then [0] else ename (d s) x.
+Fixpoint pop_while_not_html_fuel (fuel : nat) (names : list string) (s : ps) : ps :=
+  match fuel with
+  | O => s
+  | S f => match top s with
+           | None => crashed (S' "index on empty stack") s
+           | Some x => if name_in (hname_html s x) names then s else pop_while_not_html_fuel f names (pop s)
+           end
+  end.
+Definition pop_while_not_html (names : list string) (s : ps) : ps := pop_while_not_html_fuel (S (length (opn s))) names s.
+(* while len(openElements) > 1: pop() *)
+Definition pop_to_root (s : ps) : ps := set_opn (firstn 1 (opn s)) s.
 
 Definition name_tuple (s : ps) (x : nat) : str * str :=
   (match ens (d s) x with Some n => n | None => html_ns end, ename (d s) x).
@@ -473,11 +487,12 @@ Definition reset_insertion_mode (s : ps) : ps :=
           let s := if last && match inner s with None => true | Some _ => false end
                    then crashed (S' "resetInsertionMode: assert self.innerHTML") s else s in
           let nm := if last then match inner s with Some c => c | None => ename (d s) x end else ename (d s) x in
+          if negb last && negb (opt_str_eqb (ens (d s) x) (htmlns s)) then go r s
+          else
           let s := if name_in nm ["select"; "colgroup"; "head"; "html"] &&
                       match inner s with None => true | Some _ => false end
                    then crashed (S' "resetInsertionMode: assert self.innerHTML") s else s in
-          if negb last && negb (opt_str_eqb (ens (d s) x) (htmlns s)) then go r s
-          else match lookup_str new_modes nm with
+          match lookup_str new_modes nm with
                | Some p => set_ph (phase_of_name p) s
                | None => if last then set_ph inBodyP s else go r s
                end
@@ -848,7 +863,7 @@ Section Handlers.
           else if negb (fsok s) then R s
           else
             let s := detach_if_parent b s in
-            let s := pop_while_not ["html"] s in
+            let s := pop_to_root s in
             R (set_ph inFramesetP (insert_element n a s))
       | _ => R (assert_inner "InBody.startTagFrameset: assert self.parser.innerHTML" s)
       end
@@ -1013,7 +1028,7 @@ Section Handlers.
              else match data with [] => s | _ => insert_text_tree data s end in
     set_tt (ttorig s) [] s.
 
-  Definition clear_to_table (s : ps) : ps := pop_while_not ["table"; "html"] s.
+  Definition clear_to_table (s : ps) : ps := pop_while_not_html ["table"; "html"] s.
   Definition table_voodoo (t : ttok) (s : ps) : ps := set_ftab false (call inBodyP t (set_ftab true s)).
   Definition end_tag_table (s : ps) : ps :=
     if in_scope "table" VTable s then
@@ -1112,7 +1127,7 @@ Section Handlers.
     end.
 
   Definition clear_to_table_body (s : ps) : ps :=
-    let s := pop_while_not ["tbody"; "tfoot"; "thead"; "html"] s in
+    let s := pop_while_not_html ["tbody"; "tfoot"; "thead"; "html"] s in
     if cur_is s "html" then assert_inner "clearStackToTableBodyContext: assert self.parser.innerHTML" s else s.
   Definition end_tag_row_group (n : str) (s : ps) : ps :=
     if in_scope_str n VTable s then set_ph inTableP (pop (clear_to_table_body s)) else s.
@@ -1139,7 +1154,7 @@ Section Handlers.
         else rec inTableP t s
     end.
 
-  Definition clear_to_table_row (s : ps) : ps := pop_while_not ["tr"; "html"] s.
+  Definition clear_to_table_row (s : ps) : ps := pop_while_not_html ["tr"; "html"] s.
   Definition ignore_end_tr (s : ps) : bool := negb (in_scope "tr" VTable s).
   Definition end_tag_tr (s : ps) : ps :=
     if negb (ignore_end_tr s) then set_ph inTableBodyP (pop (clear_to_table_row s))
